@@ -1,10 +1,12 @@
 """mh update T-route (tools/gen_mhupdate.py -> Gen/MhUpdate.lean -> GenProps/MhUpdate.lean), used by C05 and C10."""
 import os, re, sys
 sys.path.insert(0, os.path.dirname(os.path.abspath(__file__)))
-import vlib, gen_mhupdate
+import vlib, gen_mhupdate, gen_mhfin
 
 THMS_TAIL = ["IsalVerif.GenProps.MhTail.all_canon", "IsalVerif.GenProps.MhTail.all_count", "IsalVerif.GenProps.MhTail.mhtail_current",
              "IsalVerif.MhTailC.canon_tail", "IsalVerif.MhTailC.tailBlocks_is_standard", "IsalVerif.GenProps.MhTail.mhtail_is_standard"]
+THMS_FIN = ["IsalVerif.GenProps.MhFin.all_canon", "IsalVerif.GenProps.MhFin.all_count", "IsalVerif.GenProps.MhFin.mhfin_current",
+            "IsalVerif.GenProps.MhFin.stitched_present", "IsalVerif.MhFinC.canon_fin", "IsalVerif.MhFinC.mur_reads_buffered"]
 THMS = ["IsalVerif.GenProps.MhUpdate.all_canon", "IsalVerif.GenProps.MhUpdate.all_count", "IsalVerif.GenProps.MhUpdate.stitched_present",
         "IsalVerif.GenProps.MhUpdate.mhupdate_current", "IsalVerif.MhC.canon_mh_update", "IsalVerif.MhC.mhSpec_absorb",
         "IsalVerif.GenProps.MhUpdate.mhupdate_absorbs"]
@@ -28,6 +30,19 @@ def obligations(chk, tier):
     chk.oblige("translator: %d instances of the mh_sha1 / mh_sha256 tail function -> Gen/MhTail.lean" % len(trows), bool(trows) and not terr, terr)
     tfailed = vlib.lean_obligations(chk, "IsalVerif.GenProps.MhTail", THMS_TAIL) if trows else [("gen_mhupdate(tail)", terr)]
     chk.cov["mh_tail"] = {"functions": len(trows), "theorems": THMS_TAIL}
+    try:
+        frows = gen_mhfin.main([os.path.join(b, "src"), vlib.LEAN])
+        ferr = ""
+    except Exception as e:
+        frows, ferr = [], str(e)[:300]
+    chk.oblige("translator: %d instances of the mh_sha1 / mh_sha256 / stitched finalize function -> Gen/MhFin.lean" % len(frows), bool(frows) and not ferr, ferr)
+    ffailed = vlib.lean_obligations(chk, "IsalVerif.GenProps.MhFin", THMS_FIN) if frows else [("gen_mhfin", ferr)]
+    chk.cov["mh_finalize"] = {"functions": len(frows), "theorems": THMS_FIN}
+    for name, detail in ffailed:
+        chk.violation("Lean obligation no longer checks: %s" % name,
+                      {"kind": "obligation", "obligation": name, "detail": detail,
+                       "note": "a finalize function (what is handed to murmur3 / the multi-hash tail, which words are copied out) is no "
+                               "longer the proved one; the implementation is searched by the correspondence sweep of this check"}, no_input=True)
     for name, detail in tfailed:
         chk.violation("Lean obligation no longer checks: %s" % name,
                       {"kind": "obligation", "obligation": name, "detail": detail,
@@ -47,4 +62,4 @@ def obligations(chk, tier):
                            "note": "the translated function differs from MhC.canon (or calls another family's block function); the "
                                    "implementation is searched by the correspondence sweep of this check"},
                           no_input=True, match={"fn": f, "monitor": "mh-update"})
-    return not failed and not tfailed
+    return not failed and not tfailed and not ffailed
